@@ -141,7 +141,7 @@ def gen_hashable(rng, depth=1):
     return tuple(gen_hashable(rng, depth - 1) for _ in range(rng.randrange(0, 3)))
 
 
-def _gen(rng, depth, shared):
+def _gen(rng, depth, shared, multi_sets=True):
     if depth <= 0 or rng.random() < 0.35:
         return gen_atom(rng)
     if shared and rng.random() < 0.12:
@@ -149,18 +149,20 @@ def _gen(rng, depth, shared):
     k = rng.randrange(7)
     n = rng.randrange(0, 4)
     if k == 0:
-        v = [_gen(rng, depth - 1, shared) for _ in range(n)]
+        v = [_gen(rng, depth - 1, shared, multi_sets) for _ in range(n)]
     elif k == 1:
-        return tuple(_gen(rng, depth - 1, shared) for _ in range(n))
+        return tuple(_gen(rng, depth - 1, shared, multi_sets) for _ in range(n))
     elif k == 2:
         v = {}
         for _ in range(n):
             key = rng.choice(HOSTILE_STRINGS) if rng.random() < 0.4 else 'k%d' % rng.randrange(6)
             if key.startswith('py/'):
                 key = 'k' + key
-            v[key] = _gen(rng, depth - 1, shared)
+            v[key] = _gen(rng, depth - 1, shared, multi_sets)
     elif k == 3:
         v = set()
+        if not multi_sets:
+            n = min(n, 1)
         # homogeneous-ish sets: avoid 1/True/1.0 collapsing which python itself merges
         for _ in range(n):
             try:
@@ -170,11 +172,11 @@ def _gen(rng, depth, shared):
     elif k == 4:
         # jsonpickle 0.9.3 on Python >= 3.11 mis-numbers py/id references after an object whose state holds a
         # list (object.__getstate__ exists there), so graphs WITH identity sharing only get objects with atom fields
-        v = Obj(**{'f%d' % i: (gen_hashable(rng, 0) if shared is not None else _gen(rng, depth - 1, shared)) for i in range(n)})
+        v = Obj(**{'f%d' % i: (gen_hashable(rng, 0) if shared is not None else _gen(rng, depth - 1, shared, multi_sets)) for i in range(n)})
     elif k == 5:
-        v = Obj2(a=gen_hashable(rng, 1) if shared is not None else _gen(rng, depth - 1, shared))
+        v = Obj2(a=gen_hashable(rng, 1) if shared is not None else _gen(rng, depth - 1, shared, multi_sets))
     else:
-        v = [_gen(rng, depth - 1, shared) for _ in range(n)]
+        v = [_gen(rng, depth - 1, shared, multi_sets) for _ in range(n)]
     if shared is not None and rng.random() < 0.3:
         shared.append(v)
     return v
@@ -183,9 +185,13 @@ def _gen(rng, depth, shared):
 class Gen(object):
     """Value generator with the domain gate and counters."""
 
-    def __init__(self, rng, ctx=None):
+    def __init__(self, rng, ctx=None, multi_sets=True):
         self.rng = rng
         self.ctx = ctx
+        # multi_sets=False: no set with >= 2 elements. Used for values that flow back into captured arguments after a trip
+        # through the serializer: a decoded set may iterate in another order and the framework keys sets in iteration order
+        # (known finding of C06), which must not leak into the verdicts of other properties.
+        self.multi_sets = multi_sets
 
     def value(self, depth=3, sharing=None, tries=20):
         """sharing=True: sub-objects may be shared by identity (objects then only hold atoms);
@@ -193,7 +199,7 @@ class Gen(object):
         if sharing is None:
             sharing = self.rng.random() < 0.4
         for _ in range(tries):
-            v = _gen(self.rng, depth, [] if sharing else None)
+            v = _gen(self.rng, depth, [] if sharing else None, self.multi_sets)
             if in_domain(v):
                 if self.ctx:
                     self.ctx.count('values_generated')
